@@ -153,7 +153,7 @@ class Run:
     # -- drive the real code -------------------------------------------------
     def drive(self, driver, outdir=None, env=None):
         outdir = outdir or os.path.join(self.work, "tr_" + driver)
-        e = dict(os.environ, VERIF_DOMAIN_DIR=self.domain)
+        e = dict(os.environ, VERIF_DOMAIN_DIR=self.domain, VERIF_REPO=REPO)
         if env:
             e.update(env)
         p = subprocess.run([self.harness, "drive", driver, self.tier, str(self.seed), outdir, str(NSHARDS)],
